@@ -449,7 +449,7 @@ impl World for C15 {
     fn describe(&self) -> Describe {
         Describe {
             level: "fault_enumeration",
-            rule: "three case kinds: budget = generated loop/call program (cost T measured by a limit-free run, optional prelude evaluation shifting the 1000-tick phase) x all budgets in {T-1001..T+1 boundary set, every k*1000 +-1 up to T, small, T/2}; cancel = same programs x cancellation raised at ~24 tick positions (every tick position for T<=300 in thorough) via the per-tick hook, at the n-th poll of the callback, or by an in-program cancel(); depth = recursion shape (10 pure-def call paths, 6 native-callback paths) x limit n in {1,2,3,5,10,50(default),200} x all depths around the threshold, plus unbounded recursion; non-trivial = at least one limit actually fired; distinct = digest of (program, limits)",
+            rule: "three case kinds: budget = generated loop/call program (cost T measured by a limit-free run, optional prelude evaluation shifting the 1000-tick phase) x all budgets in {T-1001..T+1 boundary set, every k*1000 +-1 up to T, small, T/2}; cancel = same programs x cancellation raised at ~24 tick positions (every tick position for T<=300 in thorough) via the per-tick hook, at the n-th poll of the callback, or by an in-program cancel(); ticks = 12 loop kinds and 31 call paths with their exact number of calls (ticks per iteration = loop + calls); depth = recursion shape (10 pure-def call paths, 6 native-callback paths) x limit n in {1,2,3,5,10,50(default),200} x all depths around the threshold, plus unbounded recursion; non-trivial = at least one limit actually fired; distinct = digest of (program, limits)",
             sim_time_unit: "evaluator ticks executed under a limit",
             real_components: vec!["Evaluator tick accounting (report_forward_progress, run_infrequent_instr_checks)", "cancellation polling", "CheapCallStack depth cap on every call path", "bytecode call/loop instructions", "native callbacks (sorted, map, filter, partial, max)"],
             stub_components: vec!["cancellation source (flag flipped by the per-tick hook / poll counter / cancel() native)"],
@@ -796,32 +796,46 @@ impl World for C15 {
                     let per_iter = b - a;
                     let lib = frozen_lib();
                     let lib_loader = kit::MapLoader { modules: [("lib".to_owned(), lib)].into_iter().collect() };
-                    let paths: [(&str, &str, &str); 21] = [
+                    // (name, definitions, expression evaluated once per iteration, number of function calls it makes:
+                    // the documented unit is "one tick is either one function call or one loop backedge")
+                    let paths: [(&str, &str, &str, u64); 31] = [
                         // a def stored under the name of a builtin method of another type
-                        ("struct_field_named_get", "def g0(x):\n    return x\nS = struct(get = g0)\n", "S.get(i)"),
-                        ("struct_field_named_pop", "def g0(x):\n    return x\nS = struct(pop = g0)\n", "S.pop(i)"),
-                        ("struct_field_named_append", "def g0(x):\n    return x\nS = struct(append = g0)\n", "S.append(i)"),
-                        ("struct_field_named_index", "def g0(x):\n    return x\nS = struct(index = g0, items = g0)\n", "S.index(S.items(i))"),
-                        ("namespace_field_named_update", "def g0(x):\n    return x\nS = namespace(update = g0)\n", "S.update(i)"),
-                        ("record_field_named_keys", "def g0(x):\n    return x\nRk = record(keys = typing.Any)\nS = Rk(keys = g0)\n", "S.keys(i)"),
-                        ("star_args", "def g(*a):\n    return a\n", "g(*[i])"),
-                        ("star_kwargs", "def g(**kw):\n    return kw\n", "g(**{\"k\": i})"),
-                        ("default_args", "def g(x, y = [1], *, z = 2):\n    return [x, y, z]\n", "g(i)"),
-                        ("partial", "def g0(x, y):\n    return [x, y]\ng = partial(g0, 1)\n", "g(i)"),
-                        ("tail_call", "def g1(x):\n    return [x]\ndef g(x):\n    return g1(x)\n", "g(i)"),
-                        ("frozen_loaded", "load(\"lib\", \"g\")\n", "g(i)"),
-                        ("frozen_internal_calls", "load(\"lib\", \"gg\")\n", "gg(3)"),
-                        ("frozen_struct_attr", "load(\"lib\", \"SG\")\n", "SG.g(i)"),
-                        ("def", "def g(x):\n    return x\n", "g(i)"),
-                        ("lambda", "g = lambda x: x\n", "g(i)"),
-                        ("struct_attr", "def g0(x):\n    return x\nS = struct(g = g0)\n", "S.g(i)"),
-                        ("kwargs", "def g(x = 0):\n    return x\n", "g(x = i)"),
-                        ("nested_call", "def g1(x):\n    return x\ndef g(x):\n    return g1(x)\n", "g(i)"),
-                        ("native_callback", "def g(x):\n    return x\n", "apply(g, i)"),
-                        ("comprehension", "def g(x):\n    return x\n", "[g(j) for j in range(1)]"),
+                        ("struct_field_named_get", "def g0(x):\n    return x\nS = struct(get = g0)\n", "S.get(i)", 1),
+                        ("struct_field_named_pop", "def g0(x):\n    return x\nS = struct(pop = g0)\n", "S.pop(i)", 1),
+                        ("struct_field_named_append", "def g0(x):\n    return x\nS = struct(append = g0)\n", "S.append(i)", 1),
+                        ("struct_field_named_index", "def g0(x):\n    return x\nS = struct(index = g0, items = g0)\n", "S.index(S.items(i))", 2),
+                        ("namespace_field_named_update", "def g0(x):\n    return x\nS = namespace(update = g0)\n", "S.update(i)", 1),
+                        ("record_field_named_keys", "def g0(x):\n    return x\nRk = record(keys = typing.Any)\nS = Rk(keys = g0)\n", "S.keys(i)", 1),
+                        ("star_args", "def g(*a):\n    return a\n", "g(*[i])", 1),
+                        ("star_kwargs", "def g(**kw):\n    return kw\n", "g(**{\"k\": i})", 1),
+                        ("default_args", "def g(x, y = [1], *, z = 2):\n    return [x, y, z]\n", "g(i)", 1),
+                        ("partial", "def g0(x, y):\n    return [x, y]\ng = partial(g0, 1)\n", "g(i)", 2),
+                        ("tail_call", "def g1(x):\n    return [x]\ndef g(x):\n    return g1(x)\n", "g(i)", 2),
+                        ("frozen_loaded", "load(\"lib\", \"g\")\n", "g(i)", 1),
+                        ("frozen_internal_calls", "load(\"lib\", \"gg\")\n", "gg(3)", 4),
+                        ("frozen_struct_attr", "load(\"lib\", \"SG\")\n", "SG.g(i)", 1),
+                        ("def", "def g(x):\n    return x\n", "g(i)", 1),
+                        ("lambda", "g = lambda x: x\n", "g(i)", 1),
+                        ("struct_attr", "def g0(x):\n    return x\nS = struct(g = g0)\n", "S.g(i)", 1),
+                        ("kwargs", "def g(x = 0):\n    return x\n", "g(x = i)", 1),
+                        ("nested_call", "def g1(x):\n    return x\ndef g(x):\n    return g1(x)\n", "g(i)", 2),
+                        ("native_callback", "def g(x):\n    return x\n", "apply(g, i)", 2),
+                        ("comprehension", "def g(x):\n    return x\n", "[g(j) for j in range(1)]", 2),
+                        // builtin methods called on a receiver whose type the compiler can guess from the method name
+                        ("known_method_list_append", "L = []\n", "L.append(i)", 1),
+                        ("known_method_dict_get", "D = {1: 2}\n", "D.get(i)", 1),
+                        ("known_method_str_find", "T = \"abcabc\"\n", "T.find(\"c\", i)", 1),
+                        ("known_method_set_add", "S = set()\n", "S.add(i)", 1),
+                        ("known_method_on_local", "", "[].append(i)", 1),
+                        ("known_method_dict_setdefault", "D = {}\n", "D.setdefault(i, 0)", 1),
+                        // natives which call back: the native call plus one call per callback
+                        ("sorted_key", "def g(x):\n    return x\n", "sorted([i, i], key = g)", 3),
+                        ("max_key", "def g(x):\n    return x\n", "max([i, i, i], key = g)", 4),
+                        ("map_callback", "def g(x):\n    return x\n", "map(g, [i, i])", 3),
+                        ("filter_callback", "def g(x):\n    return True\n", "filter(g, [i])", 2),
                     ];
                     let which = (o.digest % paths.len() as u64) as usize;
-                    let (pname, defs, call) = paths[which];
+                    let (pname, defs, call, calls) = paths[which];
                     let fc = |n: u64| {
                         let r = run(&[format!("{defs}def drive(n):\n    for i in range(n):\n        {call}\ndrive({n})\n")], &none, Some(&lib_loader));
                         r.ticks[0]
@@ -835,8 +849,13 @@ impl World for C15 {
                     }
                     let (a2, b2, c2) = (fc(10), fc(11), fc(12));
                     o.bump(&format!("probe.call_path_{pname}"), 1);
-                    if b2 - a2 != c2 - b2 || b2 - a2 <= per_iter {
+                    if b2 < a2 || b2 - a2 != c2 - b2 || b2 - a2 <= per_iter {
                         o.violate("call-not-counted", &format!("ticks-call/{pname}"), format!("call path {pname}: ticks for 10,11,12 calls: {a2},{b2},{c2} (loop alone costs {per_iter} per iteration)"));
+                    } else if b2 - a2 != per_iter + calls {
+                        // One tick per function call, whoever makes the call (bytecode or a native) and
+                        // however the callee was found (method known at compile time or looked up).
+                        let class = if b2 - a2 < per_iter + calls { "call-not-counted" } else { "call-counted-twice" };
+                        o.violate(class, &format!("ticks-call/{pname}"), format!("call path {pname}: `{call}` makes {calls} call(s) per iteration, ticks for 10,11,12 iterations: {a2},{b2},{c2} = {} per iteration, of which the loop alone costs {per_iter}", b2 - a2));
                     }
                 }
             }
